@@ -267,7 +267,8 @@ def run(ctx):
                    dict(n=2, max_parents=3, max_named=3, meta=True, mode='full', bss=[1, 2]),
                    dict(n=3, max_parents=3, max_named=3, meta=True, mode='medium', bss=[2]),
                    dict(n=3, max_parents=2, max_named=1, meta=False, mode='full', bss=[2]),
-                   dict(n=4, max_parents=2, max_named=1, meta=False, mode='light', bss=[2])]
+                   dict(n=4, max_parents=2, max_named=0, meta=False, mode='light', bss=[2]),
+                   dict(n=4, max_parents=1, max_named=1, meta=False, mode='light', bss=[2])]
     cases = []
     total_programs = 0
     for L in layers:
